@@ -182,7 +182,8 @@ func (t *textReader) nextBeforeFieldName() (bool, error) {
 			}
 		}
 
-		if tok == tokenSymbolQuoted {
+		if tok != tokenSymbol {
+			// Only an unquoted $n is a symbol ID; quoted symbols and strings are text as written.
 			t.fieldName = &SymbolToken{Text: &val, LocalSID: SymbolIDUnknown}
 		} else {
 			st, err := newSymbolToken(t.SymbolTable(), val)
